@@ -4,8 +4,8 @@ Alphabet: every workload of 1-3 chained Einsums over <= 4 tensors (1-2 inputs ea
 wiring) x 4 persistent-flag patterns; per (workload, Einsum) context the named sets All,
 Tensors, Inputs, Outputs, Intermediates, Shared, Persistent, Nothing, every tensor name of the
 workload, an Einsum-local rename and a top-level default rename; every expression tree of depth
-<= 1 over all atoms (three spellings: fully parenthesised / minimal parentheses / minimal with
-blanks) in every context, every tree of depth <= 2 over 4-atom sub-alphabets in the contexts with
+<= 1 over all atoms in every context (fully parenthesised; also with minimal parentheses in the
+structurally distinct contexts -- in every context and in two spacings in the thorough tier), every tree of depth <= 2 over 4-atom sub-alphabets in the contexts with
 distinct named-set structure, evaluated with the real ``eval_set_expression`` on the real
 per-Einsum symbol table; the depth <= 1 trees also through ``Spec._spec_eval_expressions`` in
 ``tensors.keep / may_keep / no_refetch_from_above / no_resend_to_below``; dictionaries keyed
@@ -15,7 +15,29 @@ action, and the workload.  Oracle: R-set (mc/ref/setalg.py), frozenset algebra w
 complement inside the Einsum's tensors; ``Other`` = everything not covered; overlapping keys
 must raise.
 
-Mutation self-test: see the end of this docstring (filled in from the actual runs).
+Mutation self-test (scratch copy /tmp/af-mut-c22 via VERIF_REPO, quick tier, copy removed
+afterwards).  On the unchanged tree the only violations are the triaged finding family
+``arch/Persistent-ignores-workload-persistent_tensors`` (330 cases).
+  M1 _setexpressions.InvertibleSet.__xor__ returns ``a | b``          -> CAUGHT, 26k violations
+  M2 eval_set_expression_dict: overlap test disabled                  -> CAUGHT, 1860 violations
+     (memory.bits_per_value|values_per_action/overlapping-keys-accepted[/with-Other])
+  M3 workload.Einsum._eval_expressions: Intermediates uses ``or``     -> CAUGHT, 47k violations
+     (atom=Intermediates, atom=rn, dictionary families)
+  M4 eval_set_expression_dict: ``Other`` no longer shrinks            -> CAUGHT, 2822 violations
+     (*/disjoint-dict-rejected/raise/with-Other)
+  M5 InvertibleSet.__invert__: ``full_space ^ instance``              -> not caught: EQUIVALENT
+     (instance is always a subset of full_space, so ^ equals -)
+
+Findings on the unchanged tree (both triaged as genuine, each with its own family):
+  arch/Persistent-ignores-workload-persistent_tensors   the named set ``Persistent`` is built from the
+      per-access flags *before* the workload-level ``persistent_tensors`` expression is applied, so
+      the architecture sees ``Persistent`` without the tensors that expression marks persistent
+      (the evaluated tensor accesses do carry persistent=True).
+  rename-source/tensor-name-unused-by-einsum-undefined/{default,local}   a rename whose source is the
+      name of a workload tensor the current Einsum does not use raises "name ... is not defined"
+      instead of resolving to the empty set (the empty sets for foreign tensors are only added to the
+      symbol table after the renames have been evaluated); a ``default`` rename naming a specific
+      tensor therefore breaks every Einsum that does not use that tensor.
 """
 
 from __future__ import annotations
@@ -150,14 +172,17 @@ def _imports():
     return Spec, Memory, Compute, EvaluationError, eval_set_expression, InvertibleSet, TensorName
 
 
-def af_workload(wl, bits_per_value=None, persistent_tensors=None):
+def af_workload(wl, bits_per_value=None, persistent_tensors=None, local_extra=None):
+    """local_extra: (einsum index, name, source text) -- one more Einsum-local rename"""
     pers = set(wl.get("persistent", ()))
     es = []
-    for e in wl["einsums"]:
+    for k, e in enumerate(wl["einsums"]):
         tas = [dict(name=t, projection=["m"], persistent=t in pers) for t in e["inputs"]]
         tas += [dict(name=t, projection=["m"], output=True, persistent=t in pers) for t in e["outputs"]]
-        es.append(dict(name=e["name"], tensor_accesses=tas,
-                       renames={LOCAL_RENAME[0]: R.render(LOCAL_RENAME[1], "min")}))
+        rn = {LOCAL_RENAME[0]: R.render(LOCAL_RENAME[1], "min")}
+        if local_extra is not None and local_extra[0] == k:
+            rn[local_extra[1]] = local_extra[2]
+        es.append(dict(name=e["name"], tensor_accesses=tas, renames=rn))
     d = dict(rank_sizes={"M": 4}, bits_per_value=bits_per_value if bits_per_value is not None else {"All": 8},
              einsums=es)
     if persistent_tensors is not None:
@@ -165,9 +190,11 @@ def af_workload(wl, bits_per_value=None, persistent_tensors=None):
     return d
 
 
-def af_renames():
-    return dict(einsums=[dict(name="default",
-                              tensor_accesses={DEFAULT_RENAME[0]: R.render(DEFAULT_RENAME[1], "min")})])
+def af_renames(default_extra=None):
+    d = {DEFAULT_RENAME[0]: R.render(DEFAULT_RENAME[1], "min")}
+    if default_extra is not None:
+        d[default_extra[0]] = default_extra[1]
+    return dict(einsums=[dict(name="default", tensor_accesses=d)])
 
 
 def mem(name, **kw):
@@ -177,13 +204,13 @@ def mem(name, **kw):
                                                      dict(name="write", energy=1, throughput=1)], **kw)
 
 
-def build_spec(wl, mems, **wkw):
+def build_spec(wl, mems, default_extra=None, **wkw):
     Spec, _, Compute = _imports()[:3]
     return Spec(
         arch=dict(nodes=list(mems) + [Compute(name="MAC", leak_power=0, area=0,
                                               actions=[dict(name="compute", energy=1, throughput=1)])]),
         workload=af_workload(wl, **wkw),
-        renames=af_renames(),
+        renames=af_renames(default_extra),
     )
 
 
@@ -225,21 +252,28 @@ def root_of(tree):
     return "atom" if isinstance(tree, str) else tree[0]
 
 
-def expr_family(tree, got, site):
+def _subtrees(tree):
+    """post-order (smallest first)"""
+    if not isinstance(tree, str):
+        for x in tree[1:]:
+            yield from _subtrees(x)
+    yield tree
+
+
+def expr_family(tree, got, site, wl=None, i=None, st=None):
+    """Names the smallest sub-expression that already evaluates wrongly on the real symbol table:
+    ``<site>/wrong-set/atom=<name>`` or ``<site>/wrong-set/op=<operator>`` (or the exception)."""
     if isinstance(got, str):
         return f"{site}/set-expr-{got.split(':')[0]}/{got.split(':')[-1]}/root={root_of(tree)}"
-    names = set()
-
-    def walk(t):
-        if isinstance(t, str):
-            names.add(t)
-        else:
-            for x in t[1:]:
-                walk(x)
-
-    walk(tree)
-    special = sorted(n for n in names if n in ("Intermediates", "Shared", "Persistent", "rn", "dn", "Tensors"))
-    return f"{site}/wrong-set/root={root_of(tree)}" + (f"/uses={'+'.join(special)}" if special else "")
+    if st is not None:
+        env, uni = ref_env(wl, i)
+        for sub in _subtrees(tree):
+            if eval_real(R.render(sub, "full"), st) != sorted(R.evaluate(sub, env, uni)):
+                if isinstance(sub, str):
+                    return f"{site}/wrong-set/atom={sub if sub in NAMED + ['rn', 'dn'] else 'tensor-name'}"
+                return f"{site}/wrong-set/op={sub[0]}"
+        return f"{site}/wrong-set/spelling-dependent/root={root_of(tree)}"
+    return f"{site}/wrong-set/root={root_of(tree)}"
 
 
 # ----------------------------------------------------------------------------------
@@ -274,7 +308,7 @@ def check_batch(wls, c, style, trees, site):
         if 0 < len(exp) < len(uni):
             nontriv = True
         if got != exp and viol is None:
-            viol = {"observed": got, "expected": exp, "family": expr_family(t, got, site),
+            viol = {"observed": got, "expected": exp, "family": expr_family(t, got, site, wl, i, st),
                     "note": "eval_set_expression on the real symbol table != frozenset algebra",
                     "config": {"kind": "expr", "workload": wl, "einsum": i, "expr": s, "tree": t}}
     return outs, nontriv, viol
@@ -307,7 +341,8 @@ def spec_batch(wls, c, style, trees):
         if 0 < len(exp) < len(uni):
             nontriv = True
         if got != exp and viol is None:
-            viol = {"observed": got, "expected": exp, "family": expr_family(t, got, "arch-tensors-field"),
+            viol = {"observed": got, "expected": exp,
+                    "family": expr_family(t, got, "arch-tensors-field", wl, i, real_symbol_table(wls, c)),
                     "note": "set expression in Memory.tensors.* evaluated by Spec != frozenset algebra",
                     "config": {"kind": "spec-expr", "workload": wl, "einsum": i, "exprs": strs,
                                "trees": list(trees), "style": style}}
@@ -435,12 +470,37 @@ def run_persistent_expr(wl, i, pe):
     return got, exp, flags, sorted(env["Persistent"])
 
 
+# -- a tensor name as the source of a rename -------------------------------------------
+
+def run_rename_tensor(wl, i, t, site):
+    """rename ``rq: <tensor name t>`` given in Einsum i's own renames ('local') or in the top-level
+    default entry ('default').  Documentation: a tensor name resolves to the tensor, or to the
+    empty set when the current Einsum does not use it.  -> (observed, expected, foreign)"""
+    InvertibleSet = _imports()[5]
+    env, uni = ref_env(wl, i)
+    exp = sorted(env[t])
+    name = wl["einsums"][i]["name"]
+    foreign = (t not in uni) if site == "local" else any(t not in R.tensors_of(wl, j)
+                                                         for j in range(len(wl["einsums"])))
+    try:
+        if site == "local":
+            spec = build_spec(wl, [], local_extra=(i, "rq", t))
+        else:
+            spec = build_spec(wl, [], default_extra=("rq", t))
+        ev = spec._spec_eval_expressions(einsum_name=name)
+        v = {r.name: r.source for r in ev.workload.einsums[name].renames}.get("rq")
+        got = sorted(v.instance) if isinstance(v, InvertibleSet) else f"not-a-set:{v!r}"[:60]
+    except Exception as e:
+        got = f"raise:{type(e).__name__}"
+    return got, exp, foreign
+
+
 # ----------------------------------------------------------------------------------
 
 def make(wls, q):
     ctxs = contexts(wls)
     dctx = distinct_contexts(wls, ctxs)
-    d2_ctx = dctx if not q else dctx[:24]
+    d2_ctx = dctx if not q else dctx[:12]
     spec_ctx = dctx[:12] if q else dctx
     dict_ctx = [c for c in dctx if len(wls[c[0]]["einsums"]) >= 2][:6 if q else 16]
     pers_ctx = [c for c in ctxs if not wls[c[0]]["persistent"] or wls[c[0]]["persistent"] == ["TR"]]
@@ -470,13 +530,13 @@ def make(wls, q):
 
     def tree(p):
         if len(p) == 0:
-            return ["d1-all", "d2-sub", "spec-d1", "dict", "persistent-expr"]
+            return ["d1-all", "d2-sub", "spec-d1", "dict", "persistent-expr", "rename-tensor-name"]
         ph = p[0]
         if ph == "d1-all":
             if len(p) == 1:
                 return ctxs
-            if len(p) == 2:
-                return STYLES
+            if len(p) == 2:  # quick: the blank-separated minimal spelling only in the distinct contexts
+                return (["full", "spaced"] if p[1] in dctx else ["full"]) if q else STYLES
             if len(p) == 3:
                 return kinds(atoms_of(wls[p[1][0]]))
             return None
@@ -519,6 +579,14 @@ def make(wls, q):
                 return pers_ctx
             if len(p) == 2:
                 return list(range(len(PERSISTENT_EXPRS)))
+            return None
+        if ph == "rename-tensor-name":
+            if len(p) == 1:
+                return dctx
+            if len(p) == 2:
+                return R.all_tensors(wls[p[1][0]])
+            if len(p) == 3:
+                return ["local", "default"]
             return None
         raise ValueError(ph)
 
@@ -580,6 +648,20 @@ def make(wls, q):
                                 "the evaluated workload marks persistent"}
             return Result(outcome=(ph, got), nontrivial=bool(exp[0]) and bool(exp[3]), violation=viol,
                           sample=sample, outcome_class=ph)
+        if ph == "rename-tensor-name":
+            t, site = cfg[2], cfg[3]
+            got, exp, foreign = run_rename_tensor(wl, i, t, site)
+            sample = {"kind": "rename-tensor-name", "workload": wl, "einsum": i, "tensor": t, "site": site}
+            viol = None
+            if got != exp:
+                fam = (f"rename-source/tensor-name-unused-by-einsum-undefined/{site}"
+                       if isinstance(got, str) and got.startswith("raise") and foreign
+                       else f"rename-source/tensor-name-wrong/{site}")
+                viol = {"observed": got, "expected": exp, "family": fam,
+                        "note": "a tensor name used as the source of a rename must resolve to the tensor, or to "
+                                "the empty set in an Einsum that does not use it (evaluation.rst)"}
+            return Result(outcome=(ph, got), nontrivial=foreign, violation=viol, sample=sample,
+                          outcome_class=f"{ph}:{site}:" + ("foreign" if foreign else "own"))
         raise ValueError(ph)
 
     return tree, body, dict(n_workloads=len(wls), n_contexts=len(ctxs), n_distinct_structure=len(dctx),
@@ -596,8 +678,8 @@ def run(ctx):
     ctx.bound(max_einsums=3, max_tensors=4, max_inputs_per_einsum=2, tree_depth_all_atoms=1,
               tree_depth_sub_alphabets=2, sub_alphabet_size=4, dict_keys_max=3, dict_key_alphabet=6,
               spellings=STYLES, **info)
-    ctx.note("phases: d1-all (all contexts), d2-sub, spec-d1 (through Spec evaluation), dict, persistent-expr; "
-             "see outcome_classes")
+    ctx.note("phases: d1-all (all contexts), d2-sub, spec-d1 (through Spec evaluation), dict, persistent-expr, "
+             "rename-tensor-name; see outcome_classes")
 
 
 def replay(ctx, rec):
@@ -620,6 +702,9 @@ def replay(ctx, rec):
     if kind == "dict":
         got, exp, nt, validated = run_dict(wl, i, cfg["site"], cfg["seq"])
         return {"observed": got, "expected": exp, "violation": validated and got != exp}
+    if kind == "rename-tensor-name":
+        got, exp, foreign = run_rename_tensor(wl, i, cfg["tensor"], cfg["site"])
+        return {"observed": got, "expected": exp, "violation": got != exp}
     if kind == "persistent-expr":
         r = run_persistent_expr(wl, i, PERSISTENT_EXPRS[cfg["pexpr"]])
         if r is None:
